@@ -84,7 +84,19 @@ fn path_oracle(c: &PathCase, obs: &mut Obs) -> Check {
         obs.nt(&(print_expr(&c.e), c.data.dump().len()));
     }
     let nodes = vec![Node::Text("<".into()), Node::Out { e: c.e.clone(), filters: vec![], t: Tr::PLAIN }, Node::Text(">".into())];
-    differential(&nodes, &c.data, &[], obs, "path")
+    differential(&nodes, &c.data, &[], obs, "path")?;
+    // the same path at the head of a filter chain: a step that does not exist is an error there too
+    // (status only: how `append` stringifies arrays and objects is C13's business)
+    let (expected, _) = crate::interp::run(&nodes, &c.data, &[]);
+    let src = format!("<{{{{ {} | append: '!' }}}}>", print_expr(&c.e));
+    let got = lq::with_parser(Conf::Stdlib, |p| lq::run_rv(p, &src, &c.data));
+    obs.extra_evals += 1;
+    match (&expected, &got) {
+        (_, Err(p)) => Err(Failure::new(format!("path(filtered): engine panics: {}", p.site()), format!("src={src:?} {}", p.what))),
+        (Err(crate::interp::Stop::Error(e)), Ok(Ok(g))) => Err(Failure::new("path(filtered): a step that does not exist renders instead of failing when a filter follows", format!("src={src:?} reference error={e} got=Ok({g:?})"))),
+        (Ok(e), Ok(Err(g))) => Err(Failure::new("path(filtered): an existing path fails when a filter follows", format!("src={src:?} unfiltered reference output={e:?} got=Err({})", g.lines().next().unwrap_or("")))),
+        _ => Ok(()),
+    }
 }
 
 fn paths_nth(i: u64, pool: &[Step], data: &RV, len: usize) -> Option<PathCase> {
